@@ -118,7 +118,18 @@ func verifyFuncs(P *Program, db *ContractDB, names []string, lemmas []string, wo
 		all = append(all, o)
 	}
 	t0 := time.Now()
-	if onlyNames != nil {
+	if sub := os.Getenv("GOVC_ONLY"); sub != "" && onlyNames == nil {
+		// developer filter: solve only obligations whose name contains the substring
+		var sel []*Obligation
+		for _, o := range all {
+			if strings.Contains(o.Name, sub) {
+				sel = append(sel, o)
+			} else {
+				o.Result = "skipped"
+			}
+		}
+		Discharge(g, sel, workDir, timeoutS, seed, 16, false)
+	} else if onlyNames != nil {
 		var sel []*Obligation
 		for _, o := range all {
 			if onlyNames[o.Name] {
